@@ -149,7 +149,7 @@ func (sp *Specs) parseFile(path string, goFile bool) error {
 	}
 	// join continuation lines: a line whose first word is not a keyword continues the previous one
 	keywords := map[string]bool{"onalloc": true, "func": true, "lib": true, "pure": true, "abstract": true, "ghost": true, "requires": true, "ensures": true,
-		"loop": true, "assigns": true, "fresh": true, "foreign": true, "names": true, "inline": true, "property": true, "assume": true, "canary": true, "cover": true, "effectfree": true}
+		"loop": true, "assigns": true, "fresh": true, "foreign": true, "names": true, "inline": true, "property": true, "assume": true, "canary": true, "cover": true, "effectfree": true, "enter": true, "leave": true}
 	var joined []line
 	for _, l := range lines {
 		w := strings.Fields(l.s)[0]
@@ -281,8 +281,29 @@ func (sp *Specs) parseFile(path string, goFile bool) error {
 						cur.Assigns = append(cur.Assigns, strings.TrimSpace(p))
 					}
 				}
+			case "enter", "leave":
+				// ghost code attached to the function: "enter g = expr" runs on entry (over the parameters),
+				// "leave g = expr" on return (over parameters and results)
+				k := strings.Index(rest, "=")
+				if k < 0 {
+					return fail(fmt.Errorf("expected: %s <ghost> = <expr>", f[0]))
+				}
+				e, err := parseSpecExpr(rest[k+1:])
+				if err != nil {
+					return fail(err)
+				}
+				cur.Clauses = append(cur.Clauses, &Clause{Kind: f[0], Label: strings.TrimSpace(rest[:k]), Expr: e, Src: rest, Where: where})
 			case "requires", "ensures", "canary", "cover", "loop":
 				cl := &Clause{Kind: f[0], Where: where}
+				if f[0] == "loop" && len(f) >= 4 && f[2] == "assigns" && f[3] == "fresh" {
+					// loop frame: the loop writes only to objects allocated during this execution of the function
+					n, err := strconv.Atoi(f[1])
+					if err != nil {
+						return fail(fmt.Errorf("expected: loop <n> assigns fresh"))
+					}
+					cur.Clauses = append(cur.Clauses, &Clause{Kind: "loopframe", Loop: n, Where: where})
+					continue
+				}
 				if f[0] == "loop" {
 					n, err := strconv.Atoi(f[1])
 					if err != nil || len(f) < 3 || f[2] != "invariant" {
